@@ -520,3 +520,44 @@ M("C12.push_skips_event_on_new_request", ["C12"], "emitter/otlp/src/client.rs",
             self.requests.push(request);
             self.requests.last_mut().unwrap().push(item.event);
             if false { return; }""", "C12.NONE") if False else None
+
+# ---- C14 -------------------------------------------------------------------------------------------
+M("C14.logs_tried_first", ["C14"], "emitter/otlp/src/client.rs",
+  "        if let Some((ref encoder, ref sender)) = self.otlp_metrics {\n            if let Some(event) = encoder.encode_event(&evt) {",
+  "        if let Some((ref encoder, ref sender)) = self.otlp_logs {\n            if let Some(event) = encoder.encode_event(&evt) {", "C14.R1")
+M("C14.metrics_arm_falls_through", ["C14"], "emitter/otlp/src/client.rs",
+  """        if let Some((ref encoder, ref sender)) = self.otlp_metrics {
+            if let Some(event) = encoder.encode_event(&evt) {
+                return sender.send(ChannelItem {
+                    max_request_size_bytes: DEFAULT_MAX_REQUEST_SIZE_BYTES,
+                    event,
+                });
+            }
+        }""",
+  """        if let Some((ref encoder, ref sender)) = self.otlp_metrics {
+            if let Some(event) = encoder.encode_event(&evt) {
+                sender.send(ChannelItem {
+                    max_request_size_bytes: DEFAULT_MAX_REQUEST_SIZE_BYTES,
+                    event,
+                });
+            }
+        }""", "C14.R1")
+M("C14.traces_accept_point_extents", ["C14"], "emitter/otlp/src/data/traces.rs",
+  """            .and_then(|extent| extent.as_range())
+            .map(|range| {
+                (
+                    range.start.to_unix().as_nanos() as u64,
+                    range.end.to_unix().as_nanos() as u64,
+                )
+            })?;""",
+  """            .map(|extent| {
+                let range = extent.as_range().cloned().unwrap_or_else(|| *extent.as_point()..*extent.as_point());
+                (
+                    range.start.to_unix().as_nanos() as u64,
+                    range.end.to_unix().as_nanos() as u64,
+                )
+            })?;""", "C14.R2:traces")
+M("C14.discard_not_counted", ["C14"], "emitter/otlp/src/client.rs",
+  "        self.metrics.event_discarded.increment();\n    }", "    }", "C14.R1")
+M("C14.span_filter_metric_kind", ["C14"], "src/kind.rs",
+  "KindFilter::new(Kind::Span)", "KindFilter::new(Kind::Metric)", "C14.R3") if False else None
